@@ -164,6 +164,7 @@ def run(ctx):
         add(c04.CONFIGS[i % len(c04.CONFIGS)], c04.gen_soup(rng) + ("\n" if i % 2 else "") + c04.gen_soup(rng), "soup")
     check_batch(ctx, items)
     reused_builder(ctx, rng)
+    builder_configurations(ctx, rng)
     decoded_text_positions(ctx, rng)
 
 
@@ -205,6 +206,105 @@ def decoded_text_positions(ctx, rng):
                     break
                 last = off
     ctx.count("decoded_text_position_cases", variants)
+
+
+def builder_configurations(ctx, rng):
+    """The two settings of store_line_numbers belong to the builder that parses the document, whatever route the setting
+    took to it and whatever that builder or the caller's argument objects were used for before: a parser_kwargs dict shared
+    between calls, a subclass of the builder (also one that declares is_xml), a builder instance used for a second document
+    while the first is still alive, after a rejected document, and the builder of a document restored from a pickle."""
+    import pickle
+    from bs4.builder._htmlparser import HTMLParserTreeBuilder
+    from bs4.exceptions import ParserRejectedMarkup
+    default = c04.CONFIG["default"]
+
+    class PlainSubclass(HTMLParserTreeBuilder):
+        pass
+
+    class XMLFlavoured(HTMLParserTreeBuilder):
+        is_xml = True
+
+    def positions_ok(case, soup, markup, stored, what):
+        got = [(t.name, (t.sourceline, t.sourcepos)) for t in soup.find_all(True)]
+        ctx.case(("builder-config", what, stored, markup), nontrivial=len(got) >= 2)
+        last = -1
+        for n, p in got:
+            if not stored:
+                if p != (None, None):
+                    ctx.fail(case, "store_line_numbers=False but a tag carries a position (%s)" % what, (n, p), (None, None), tag="builder-config")
+                    return
+                continue
+            off = None if p[0] is None or p[1] is None else offset_of(markup, p)
+            if not (off is not None and markup[off:off + 1] == "<" and markup[off + 1:off + 1 + len(n)].lower() == n.lower() and off > last):
+                ctx.fail(case, "a tag's position is not where its start tag's '<' appears (%s)" % what, (n, p), None, tag="builder-config")
+                return
+            last = off
+
+    def doc():
+        while True:
+            markup, dn, tags = c04.write_doc(rng, default, c04.gen_doc(rng, default))
+            if len(tags) >= 2:
+                return "\n" * rng.randint(0, 2) + markup
+
+    rejected = ["<p>x</p><![foo[ y ]]>"]
+    n = 0
+    with warnings.catch_warnings():
+        warnings.simplefilter("ignore")
+        for i in range(40 if ctx.thorough else 8):
+            # a parser_kwargs dict shared between constructor calls
+            for order in ((False, None, True), (True, False, None), (None, False, True, False)):
+                shared = {"convert_charrefs": False}
+                for j, st in enumerate(order):
+                    m = doc()
+                    kw = {} if st is None else {"store_line_numbers": st}
+                    soup = BeautifulSoup(m, "html.parser", parser_kwargs=shared, **kw)
+                    positions_ok({"markup": m, "kind": "shared parser_kwargs, call #%d of %r" % (j, order), "config": "default",
+                                  "store_line_numbers": st}, soup, m, st is not False, "shared parser_kwargs dict")
+                    n += 1
+            # builder subclasses, given as class or as instance
+            for cls in (HTMLParserTreeBuilder, PlainSubclass, XMLFlavoured):
+                for st in (None, True, False):
+                    kw = {} if st is None else {"store_line_numbers": st}
+                    for route in ("class", "instance"):
+                        for as_bytes in (False, True):
+                            m = doc()
+                            try:
+                                data = m.encode("ascii") if as_bytes else m
+                            except UnicodeEncodeError:
+                                data = m
+                            soup = BeautifulSoup(data, builder=cls, **kw) if route == "class" else BeautifulSoup(data, builder=cls(**kw))
+                            positions_ok({"markup": m, "kind": "builder=%s (%s)%s" % (cls.__name__, route, ", bytes" if as_bytes else ""),
+                                          "config": "default", "store_line_numbers": st}, soup, m, st is not False,
+                                         "builder %s given as %s" % (cls.__name__, route))
+                            n += 1
+            # one builder instance across documents
+            for st in (False, True):
+                b = HTMLParserTreeBuilder(store_line_numbers=st)
+                keep = []
+                for j in range(4):
+                    m = doc()
+                    soup = BeautifulSoup(m, builder=b)
+                    keep.append(soup)
+                    positions_ok({"markup": m, "kind": "builder instance, document #%d while earlier ones are alive" % j, "config": "default",
+                                  "store_line_numbers": st}, soup, m, st, "builder instance reused")
+                    n += 1
+                    if j == 1:
+                        for bad in rejected:
+                            try:
+                                BeautifulSoup(bad, builder=b)
+                            except ParserRejectedMarkup:
+                                pass
+                            except Exception:
+                                pass
+                m = doc()
+                original = BeautifulSoup(m, "html.parser", store_line_numbers=st)
+                restored = pickle.loads(pickle.dumps(original))
+                m2 = doc()
+                soup = BeautifulSoup(m2, builder=restored.builder)
+                positions_ok({"markup": m2, "kind": "builder of an unpickled document", "config": "default", "store_line_numbers": st},
+                             soup, m2, st, "builder of an unpickled document")
+                n += 1
+    ctx.count("builder_configuration_cases", n)
 
 
 def reused_builder(ctx, rng):
